@@ -635,6 +635,10 @@ class MarkdownNormalizer(Renderer):
         return text
 
     def render_line_break(self, element: inline.LineBreak) -> str:
+        if not element.soft:
+            # A hard break starts a new output line, so an escaped "1\." right after it still needs
+            # its escape (see render_literal).
+            self._current_inline_text = ""
         return "\n" if element.soft else "\\\n"
 
     def render_code_span(self, element: inline.CodeSpan) -> str:
